@@ -279,6 +279,39 @@ def run_history(rng, nops, via_prepared):
         env.close()
 
 
+def command_fallback_probe():
+    """valid MySQL spellings of SHOW and SET that sqlglot's MySQL grammar does not know come out of the parser as a generic
+    exp.Command; the SHOW / SET middlewares test for exp.Show / exp.Set only.  -> the spellings that reached the application"""
+    import asyncio, logging
+    logging.getLogger("sqlglot").setLevel(logging.ERROR)      # ("contains unsupported syntax. Falling back to parsing as a 'Command'")
+    calls = []
+
+    class S(impl.Session):
+        async def query(self, expression, sql, attrs):
+            calls.append(sql)
+            return [(1,)], ["a"]
+
+        async def schema(self):
+            return {"db": {"t": {"a": "INT"}}}
+    reached = []
+    loop = asyncio.new_event_loop()
+    try:
+        for sql in ("SHOW FIELDS FROM t", "SHOW KEYS FROM t", "SHOW INDEXES FROM t", "SHOW LOCAL VARIABLES", "SHOW CHAR SET", "SHOW CREATE SCHEMA db",
+                    "SHOW EXTENDED COLUMNS FROM t", "SET ROLE r", "SET CHAR SET utf8mb4", "SET PASSWORD FOR root = 'x'", "SET LOCAL TRANSACTION READ ONLY"):
+            sess = S()
+            sess.database = "db"
+            del calls[:]
+            try:
+                loop.run_until_complete(sess.handle_query(sql, {}))
+            except Exception:  # noqa  (refused by the library: it did not reach the application)
+                pass
+            if calls:
+                reached.append(sql)
+    finally:
+        loop.close()
+    return reached
+
+
 def run(ctx: core.Ctx):
     rng = ctx.rng
     pr = core.check_proofs(ctx, "Props/C13", headers=[HEADER])
@@ -307,6 +340,11 @@ def run(ctx: core.Ctx):
                 disagreements.append(dict(kind="route", sql=text, database=db0, impl=dict(calls=want, db=final, last=last), model=dict(calls=mc, db=mdb, last=mlast)))
     except Exception as e:  # noqa
         disagreements.append(dict(kind="model-not-evaluable", error=str(e)[-500:]))
+    reached = command_fallback_probe()
+    ctx.evals += 11
+    if reached:
+        core.report_violation(ctx, "SHOW / SET spellings outside sqlglot's grammar reach the application",
+                              dict(kind="command-fallback", reached_the_application=reached), key="show-set-command-fallback-reaches-application")
     if witness is not None:
         core.report_violation(ctx, "the application does not see exactly the statements it must handle", witness)
     if (not pr["ok"] or disagreements) and not ctx.violations:
